@@ -16,6 +16,8 @@ def c02(chk, tier):
     rules_cg.r_noexit(P(), chk)
     lalr.r_lalr(P(), chk)
     rules_dispatch.r_dispatch(P(), chk, "C02")
+    rules_dispatch.r_linestrip(P(), chk)
+    rules_dispatch.r_sibling_outline(P(), chk)
 
 
 def c05(chk, tier):
@@ -47,10 +49,11 @@ def c06(chk, tier):
 
 
 def c01(chk, tier):
-    chk.explanation = "Static: R-ARRAY (interval analysis of every fixed-array index/copy), R-TYPEWRITE."
+    chk.explanation = "Static: R-ARRAY (interval analysis of every fixed-array index/copy), R-TYPEWRITE, R-LOOKBEHIND, R-INIT, R-STALE."
     rules_mem.r_array(P(), chk)
     rules_mem.r_lookbehind(P(), chk)
     rules_mem.r_init(P(), chk)
+    rules_mem.r_stale(P(), chk)
 
 
 def c19(chk, tier):
@@ -62,6 +65,7 @@ def c07(chk, tier):
     chk.explanation = "Static: R-RECURSE (SCC classification, depth guards, stack budget from -fstack-usage), R-CONSTTIME."
     rules_recurse.r_recurse(P(), chk, tier)
     rules_recurse.r_consttime(P(), chk)
+    rules_recurse.r_counter(P(), chk)
     if tier == "thorough":
         rules_recurse.r_recurse(P("nopool"), chk, tier)
 
@@ -81,17 +85,20 @@ def c15(chk, tier):
     chk.explanation = "Static: R-ENUM compile-fail witnesses, R-LINK chain discipline, R-TYPEWRITE value origins."
     rules_misc.r_enum(P(), chk)
     rules_misc.r_link(P(), chk)
+    rules_misc.r_span_split(P(), chk)
     rules_mem.type_field_invariant(P(), chk)
 
 
 def c12(chk, tier):
     chk.explanation = "Static: R-DUAL mirror-image check of accept/reject tables (EDPE), iteration direction, writer agreement."
     rules_critic.r_dual(P(), chk)
+    rules_misc.r_link(P(), chk)     # accept/reject start their back-to-front walk at child->tail
 
 
 def c14(chk, tier):
     chk.explanation = "Static: R-ESCPAIR escaper (EDPE over all 256 byte values) vs. unescaper table inversion."
     rules_esc.r_escpair(P(), chk)
+    rules_dispatch.r_sibling_outline(P(), chk)
 
 
 def c16(chk, tier):
